@@ -115,6 +115,71 @@ func (h *hist) failingContractToContractCall() {
 	h.out.Count("c01:act:pillar-registration-with-failing-burn")
 }
 
+// wide tokens: user tokens whose supplies and balances sit around 2^64 (where a machine word ends and big.Int goes on) and
+// a token whose MaxSupply is far below 2^64 while mints of almost 2^64 are attempted
+var two64 = new(big.Int).Lsh(big.NewInt(1), 64)
+
+func (h *hist) issueWideTokens() {
+	kp := h.actors[h.rng.Intn(3)]
+	tot := []*big.Int{
+		new(big.Int).Sub(two64, big.NewInt(1000)), new(big.Int).Sub(two64, big.NewInt(1)), new(big.Int).Set(two64),
+		new(big.Int).Add(two64, big.NewInt(12345)), new(big.Int).Mul(big.NewInt(3), new(big.Int).Lsh(big.NewInt(1), 63)),
+	}[h.rng.Intn(5)]
+	h.sendCall(kp, Call{"token.Issue", types.TokenContract, types.ZnnTokenStandard, new(big.Int).Set(constants.TokenIssueAmount),
+		definition.ABIToken.PackMethodPanic(definition.IssueMethodName, "wide", "WIDE", "", tot, new(big.Int).Lsh(big.NewInt(1), 70), uint8(0), true, true, false)})
+	h.sendCall(kp, Call{"token.Issue", types.TokenContract, types.ZnnTokenStandard, new(big.Int).Set(constants.TokenIssueAmount),
+		definition.ABIToken.PackMethodPanic(definition.IssueMethodName, "narrow", "NARROW", "", big.NewInt(500), big.NewInt(1000), uint8(0), true, true, false)})
+	for i := 0; i < 3; i++ {
+		h.momentum()
+	}
+	h.out.Count("c01:history-with-tokens-around-2^64")
+}
+
+// wideOp: transfers whose amounts and the receiver's balance are each below 2^64 while their sum is not; mints of almost
+// 2^64 against a small MaxSupply (must be refused) and against a wide one
+func (h *hist) wideOp() {
+	if h.prev == nil {
+		return
+	}
+	for _, t := range h.prev.Tokens {
+		owner := KeyOf(t.Owner)
+		if owner == nil {
+			continue
+		}
+		switch t.TokenSymbol {
+		case "WIDE":
+			// from whoever holds some to one fixed receiver, in amounts around 2^63
+			to := h.users[len(h.users)-1]
+			for _, kp := range h.actors {
+				bal := h.prev.Bal[kp.Address][t.TokenStandard]
+				if bal == nil || bal.Sign() <= 0 || kp.Address == to {
+					continue
+				}
+				amt := []*big.Int{new(big.Int).Lsh(big.NewInt(1), 63), new(big.Int).Add(new(big.Int).Lsh(big.NewInt(1), 63), big.NewInt(int64(h.rng.Intn(1000)))),
+					new(big.Int).Sub(two64, big.NewInt(1)), new(big.Int).Rsh(bal, 1)}[h.rng.Intn(4)]
+				if amt.Cmp(bal) > 0 {
+					amt = new(big.Int).Set(bal)
+				}
+				h.sendCall(kp, Call{"transfer", to, t.TokenStandard, amt, nil})
+				h.out.Count("c01:act:wide-transfer")
+				break
+			}
+			if h.rng.Intn(3) == 0 {
+				h.sendCall(owner, Call{"token.Mint", types.TokenContract, types.ZnnTokenStandard, big.NewInt(0),
+					definition.ABIToken.PackMethodPanic(definition.MintMethodName, t.TokenStandard, new(big.Int).Sub(two64, big.NewInt(int64(1+h.rng.Intn(200)))), h.users[h.rng.Intn(len(h.users))])})
+			}
+		case "NARROW":
+			amt := []*big.Int{new(big.Int).Sub(two64, big.NewInt(100)), new(big.Int).Sub(two64, big.NewInt(1)), new(big.Int).Sub(two64, t.TotalSupply),
+				new(big.Int).Set(two64), new(big.Int).Sub(t.MaxSupply, t.TotalSupply), new(big.Int).Add(new(big.Int).Sub(t.MaxSupply, t.TotalSupply), big.NewInt(1))}[h.rng.Intn(6)]
+			if amt.Sign() > 0 {
+				h.sendCall(owner, Call{"token.Mint", types.TokenContract, types.ZnnTokenStandard, big.NewInt(0),
+					definition.ABIToken.PackMethodPanic(definition.MintMethodName, t.TokenStandard, amt, h.users[h.rng.Intn(len(h.users))])})
+				h.out.Count("c01:act:narrow-mint")
+			}
+		}
+	}
+}
+
 func history(rng *rand.Rand, out *Out, steps int) {
 	c2c := false
 	if rng.Intn(5) == 0 {
@@ -132,6 +197,10 @@ func history(rng *rand.Rand, out *Out, steps int) {
 	h.prev = h.sc.Scan(false)
 	ok, d := h.prev.SupplyOracle()
 	out.Oracle(ok, "c01-genesis-supply", d)
+	wide := rng.Intn(4) == 0
+	if wide {
+		h.issueWideTokens()
+	}
 	probed := false
 	c2cAt := -1
 	if c2c {
@@ -140,6 +209,9 @@ func history(rng *rand.Rand, out *Out, steps int) {
 	for s := 0; s < steps; s++ {
 		if s == c2cAt {
 			h.failingContractToContractCall()
+		}
+		if wide && rng.Intn(6) == 0 {
+			h.wideOp()
 		}
 		switch k := rng.Intn(100); {
 		case k < 30:
